@@ -36,7 +36,7 @@ DBS = [None, "db1", "DB1", "Db1"]
 SCS = [None, "s1", "S1", "information_schema", "INFORMATION_SCHEMA"]
 STORAGE = ["memory", "path_fresh", "path_reopen"]
 PRIOR = ["nothing", "db", "db_schema", "other_live"]
-SECOND = ["none", "same", "other_schema", "noargs", "other_case", "other_db"]
+SECOND = ["none", "same", "other_schema", "noargs", "other_case", "other_db", "same_after_drop_schema"]
 
 
 def gen_cases(tier: str, seed: int):
@@ -44,7 +44,7 @@ def gen_cases(tier: str, seed: int):
     for st, prior, db, sc, cd, cs, second in itertools.product(
         storages, PRIOR, DBS, SCS, (True, False), (True, False), SECOND
     ):
-        if tier == "quick" and second not in ("none", "other_schema", "other_db"):
+        if tier == "quick" and second not in ("none", "other_schema", "other_db", "same_after_drop_schema"):
             continue
         yield {"storage": st, "prior": prior, "db": db, "sc": sc, "cd": cd, "cs": cs, "second": second}
     if tier == "quick":  # a slice of the file modes on every change
@@ -92,8 +92,8 @@ def _prep(fs: Any, world: World, prior: str, path_mode: bool) -> Any:
         world.new_db("DB1", False)
         if prior == "db_schema":
             cur.execute("CREATE SCHEMA DB1.S1")
-            cur.execute("CREATE TABLE DB1.S1.PROBE_T (ID INT)")
-            cur.execute("INSERT INTO DB1.S1.PROBE_T VALUES (1), (2)")
+            cur.execute("CREATE TABLE DB1.S1.PROBE_T (ID INT, NAME VARCHAR(20)) COMMENT = 'probe table'")
+            cur.execute("INSERT INTO DB1.S1.PROBE_T (ID) VALUES (1), (2)")
             world.attached["DB1"]["S1"] = {"PROBE_T"}
     elif prior == "other_live":
         c = fs.connect()
@@ -146,7 +146,7 @@ def run_case(case: dict, env: core.Env) -> None:
 
 def _args_for(case: dict, which: str) -> tuple[str | None, str | None] | None:
     db, sc = case["db"], case["sc"]
-    if which == "first" or which == "same":
+    if which in ("first", "same", "same_after_drop_schema"):
         return db, sc
     if which == "other_schema":
         return db, "s2"
@@ -166,6 +166,19 @@ def _drive(case: dict, env: core.Env, fs: Any, world: World, other: Any, st: str
         args = _args_for(case, which)
         if args is None:
             continue
+        if which == "same_after_drop_schema":
+            # the schema of the first connect is dropped by a statement (of another session) in between
+            D, S = (args[0] or "").upper(), (args[1] or "").upper()
+            if not (D in world.attached and S in world.attached[D]) or world.attached[D][S]:
+                return  # nothing to drop (or it holds the probe table)
+            dropper = fs.connect()
+            try:
+                dropper.cursor().execute(f"DROP SCHEMA {D}.{S}")
+            except Exception as e:  # noqa: BLE001
+                env.witness(f"C14/drop-schema-rejected/{type(e).__name__}", str(e)[:200])
+                return
+            del world.attached[D][S]
+            sessions.clear()  # the first session's current schema is gone: its context is C03's business
         ok = _one_connect(case, env, fs, world, args, st, which)
         if ok is None:
             return
@@ -267,7 +280,14 @@ def _one_connect(case: dict, env: core.Env, fs: Any, world: World, args: tuple, 
         env.witness(f"C14/probe/expected-{want}/got-{got}/{cfg}", f"SELECT COUNT(*) FROM PROBE_T after connect({db_arg!r},{sc_arg!r}) {st} prior={case['prior']}: {out.get('exc') or out.get('rows')}")
     # existing data undisturbed
     if "DB1" in world.attached and "PROBE_T" in world.attached["DB1"].get("S1", ()):
-        rows = core.raw_root(fs).cursor().execute("select count(*) from DB1.S1.PROBE_T").fetchall()
+        rawc = core.raw_root(fs).cursor()
+        rows = rawc.execute("select count(*) from DB1.S1.PROBE_T").fetchall()
         if rows != [(2,)]:
             env.witness("C14/data-disturbed", f"PROBE_T rows {rows}")
+        # nor its recorded Snowflake-side metadata
+        env.count("cmp_metadata_kept")
+        meta = (rawc.execute("select comment from DB1.information_schema._fs_tables_ext where ext_table_name = 'PROBE_T'").fetchall(),
+                rawc.execute("select ext_column_name, ext_character_maximum_length from DB1.information_schema._fs_columns_ext where ext_table_name = 'PROBE_T'").fetchall())
+        if meta != ([("probe table",)], [("NAME", 20)]):
+            env.witness("C14/metadata-disturbed", f"after connect({db_arg!r},{sc_arg!r}) {st} prior={case['prior']}: recorded comment/lengths of PROBE_T are {meta}")
     return (conn, core.session_state(conn), core.engine_context(conn))
